@@ -179,6 +179,8 @@ def mask_help(v):
 
 def compare(go, model, keys=ALL_KEYS, transform=None):
     """returns None if equal on the projection, else a description dict"""
+    if go.get("hang"):
+        return {"where": "termination", "impl": go["hang"], "model": "terminates"}
     if go.get("fatal"):
         return {"where": "harness", "fatal": go["fatal"]}
     gs, ms = go["setup"], model["setup"]
